@@ -53,9 +53,12 @@ def run(ctx):
     # index was parsed successfully by try_from_bytes): the cited rule instances are re-evaluated here
     from . import C14
     from .C19 import _Only
-    ctx.rule("RC", "construction-time validation that the reviewed `expect`s of expect_ops_from_indices rely on (C14 R1/R3): an op index is recorded only for an opcode that was parsed together with its operand bytes")
+    ctx.rule("RC", "construction-time validation that the reviewed `expect`s of expect_ops_from_indices rely on (C14 R1/R3): an op index is recorded only for an opcode that was parsed together with its operand bytes; and the join arithmetic that the `expect` of compute_effects relies on (C10 R4)")
     C14.run(_Only(ctx, "R1", "RC"))
     C14.run(_Only(ctx, "R3", "RC"))
+    # `store_range(..).expect(..)` in compute_effects: the write pointer stays inside the block allocated just before (C10 R4)
+    from . import C10
+    C10.run(_Only(ctx, "R4", "RC"))
     # (b)
     total = 0
     for (label, adt, field, limit, doc) in B.CONTAINERS:
